@@ -672,7 +672,7 @@ func TestHistories(t *testing.T) {
 	// thorough was 300 000 x <= 80 steps at first: 825 M authorizations, 25 min wall on a loaded 16-core box; cut to a third
 	ev.SetChecks(ev.Scale(3000, 100000))
 	_ = flag.Set("rapid.steps", fmt.Sprint(ev.Pick(40, 60)))
-	rapid.Check(t, func(rt *rapid.T) {
+	ev.Check(t, func(rt *rapid.T) {
 		m := newMachine()
 		var log []Op
 		nt := false
@@ -938,6 +938,9 @@ func TestReplay(t *testing.T) {
 	}
 	if err != nil {
 		t.Fatal(err)
+	}
+	if ev.ReplayFuzz(t, rf, fuzzProps, nil) {
+		return
 	}
 	var c Case
 	if err := json.Unmarshal(rf.Case, &c); err != nil {
